@@ -445,6 +445,7 @@ func checkC04(c *Ctx, r *Report) {
 	r.rule("C04.R12", "the length a string / octet-string encoder announces is the number of octets it writes: len of the value itself, in octets (not a count of characters)", 2)
 	r.rule("C04.R13", "the tag number written for a member comes from its `tagNum:` parameter only (shared with C16.R7)", 1)
 	r.rule("C04.R14", "the string-type keywords of the `ber:` tags select the universal tag numbers X.680 gives those types (utf8 12, ia5 22, graphic 25 ...)", 3)
+	r.rule("C04.R15", "the digits of a tag number / length are written into the octets that were just appended for them: the index of every such write starts at the number of octets the header already has", 0)
 	r.rule("C04.R6", "errors are returned: recursive calls, unsupported constructs, top level", 4)
 	r.rule("C04.R7", "the content encoder is stored on every path that uses it (no nil-interface call)", 2)
 	r.rule("C04.R9", "tag-number, length and INTEGER octet counts are exactly the minimal number of digits for every value (exact interval partition), digits written most significant first", 6)
@@ -555,6 +556,7 @@ func checkC04(c *Ctx, r *Report) {
 	checkParseWidths(c, r, "C04.R11", c.fn("cdr/asn", "parseFieldParameters"))
 	c04LenIsOctetCount(c, r, "C04.R12")
 	c04StringTypeTags(c, r, "C04.R14")
+	c04HeaderCursor(c, r, "C04.R15")
 	c16TagNumberWriters(c, r, "C04.R13")
 	c04ErrorPropagation(c, r, mk, "C04.R6")
 	top := c.fn("cdr/asn", "BerMarshalWithParams")
@@ -761,6 +763,7 @@ func checkC05(c *Ctx, r *Report) {
 	r.rule("C05.R11", "a member the encoder cannot encode makes the whole encoding fail (shared with C04.R6): an error that is dropped leaves the member out or encodes something else, and the value read back differs without any error", 4)
 	r.rule("C05.R12", "the decoder refuses no tag number the encoder writes: an error exit decided by the value of the tag number leaves 31..2^21 (everything the high-tag-number form is used for) accepted", 1)
 	r.rule("C05.R13", "both halves see the declared tag numbers in full width (shared with C04.R11)", 1)
+	r.rule("C05.R14", "the header the decoder reads back has its length octets where the encoder meant them (shared with C04.R15)", 0)
 	r.rule("C05.R3", "unsupported constructs return an error in both halves", 2)
 	r.rule("C05.R4", "decoder stores values of the right type (reflect Set assignability)", 3)
 	r.rule("C05.R10", "the decoder takes class, form and tag number from the bits the encoder (and X.690 8.1.2) puts them in", 5)
@@ -805,6 +808,7 @@ func checkC05(c *Ctx, r *Report) {
 	c05DescentOffsets(c, r, "C05.R8")
 	c05TagAcceptRange(c, r, "C05.R12")
 	checkParseWidths(c, r, "C05.R13", c.fn("cdr/asn", "parseFieldParameters"))
+	c04HeaderCursor(c, r, "C05.R14")
 	c04DigitCounts(c, r, "C05.R9")
 	berHeaderDecoder(c, r, "C05.R10")
 	codecPurity(c, r, []*ssa.Function{c.fn("cdr/asn", "UnmarshalWithParams"), c.fn("cdr/asn", "Unmarshal")}, modPath+"/cdr/asn", "C05.R6", "decode")
@@ -1482,5 +1486,195 @@ func c04StringTypeTags(c *Ctx, r *Report, rule string) {
 	}
 	if n == 0 {
 		r.viol(rule, "keywords", c.rel(pkg.Syntax[0].Pos()), "no string-type keyword of the tag language found (anchor moved)")
+	}
+}
+
+// c04HeaderCursor (C04.R15): appendTagAndLen appends a block of n octets (make([]byte, n)...)
+// and then fills it with indexed stores dst[n-1-i+offset].  The stores land in the block only
+// if `offset` equals the number of octets appended before the block.  Both quantities are
+// computed as linear forms over the SSA values; where they are merged in one block (the short
+// / long tag branches) they are compared edge by edge.
+func c04HeaderCursor(c *Ctx, r *Report, rule string) {
+	f := c.fn("cdr/asn", "appendTagAndLen")
+	fe := newFormEval(f)
+	if len(f.Params) == 0 {
+		return
+	}
+	dst0 := ssa.Value(f.Params[0])
+	// number of octets appended to reach slice value v: alternatives per merge edge
+	type alt struct {
+		p    poly
+		edge *ssa.BasicBlock // predecessor the alternative arrives by (nil: no merge)
+		at   *ssa.BasicBlock
+	}
+	var lenOf func(v ssa.Value, d int) ([]alt, bool)
+	lenOf = func(v ssa.Value, d int) ([]alt, bool) {
+		if d > 12 {
+			return nil, false
+		}
+		if v == dst0 {
+			return []alt{{p: constPoly(0)}}, true
+		}
+		switch x := v.(type) {
+		case *ssa.Phi:
+			var out []alt
+			for i, e := range x.Edges {
+				as, ok := lenOf(e, d+1)
+				if !ok || len(as) != 1 {
+					return nil, false
+				}
+				out = append(out, alt{as[0].p, x.Block().Preds[i], x.Block()})
+			}
+			return out, true
+		case *ssa.Call:
+			bi, ok := x.Call.Value.(*ssa.Builtin)
+			if !ok || bi.Name() != "append" || len(x.Call.Args) != 2 {
+				return nil, false
+			}
+			base, ok := lenOf(x.Call.Args[0], d+1)
+			if !ok {
+				return nil, false
+			}
+			var add poly
+			switch y := x.Call.Args[1].(type) {
+			case *ssa.Slice: // a literal of k elements: new [k]byte, sliced
+				if al, ok := y.X.(*ssa.Alloc); ok {
+					if arr, ok := al.Type().Underlying().(*types.Pointer).Elem().Underlying().(*types.Array); ok {
+						add = constPoly(arr.Len())
+					}
+				}
+			case *ssa.MakeSlice:
+				add = fe.eval(y.Len)
+			}
+			if add == nil {
+				return nil, false
+			}
+			var out []alt
+			for _, b := range base {
+				out = append(out, alt{polyAdd(b.p, add, 1), b.edge, b.at})
+			}
+			return out, true
+		}
+		return nil, false
+	}
+	n := 0
+	eachInstr(f, func(_ *ssa.BasicBlock, _ int, ins ssa.Instruction) {
+		st, ok := ins.(*ssa.Store)
+		if !ok {
+			return
+		}
+		ia, ok := st.Addr.(*ssa.IndexAddr)
+		if !ok || !inCycle(st.Block()) {
+			return
+		}
+		// the slice written: append(prev, make([]byte, n)...)
+		call, ok := ia.X.(*ssa.Call)
+		if !ok {
+			return
+		}
+		bi, ok := call.Call.Value.(*ssa.Builtin)
+		if !ok || bi.Name() != "append" || len(call.Call.Args) != 2 {
+			return
+		}
+		mk, ok := call.Call.Args[1].(*ssa.MakeSlice)
+		if !ok {
+			return
+		}
+		n++
+		key := fmt.Sprintf("%s|digits block #%d", fnKey(f), n)
+		before, ok := lenOf(call.Call.Args[0], 0)
+		if !ok {
+			r.info(rule, key, posOf(c, st), "not decided here: the octets appended before this block cannot be counted from the shape of the code (C04.R9/R10 and C05.R10 still decide the digits and the bit layout)")
+			return
+		}
+		// index = (n - 1 - i) + cursor : cursor = index - n + 1 + i, with i the loop counter
+		idx := fe.eval(ia.Index)
+		cur := polyAdd(idx, fe.eval(mk.Len), -1)
+		cur = polyAdd(cur, constPoly(1), 1)
+		// remove the loop counter (a phi of the store's loop with coefficient -1 in idx)
+		for mono, coef := range cur {
+			if strings.HasPrefix(mono, "phi:") && coef == 1 {
+				// +i after adding i back? the index holds -i: cur still has -i; add it back below
+			}
+			_ = coef
+		}
+		for mono, coef := range idx {
+			if strings.HasPrefix(mono, "phi:") && coef == -1 && !strings.Contains(mono, monoSep) {
+				cur = polyAdd(cur, atomPoly(mono), 1)
+			}
+		}
+		// only the shape dst[(n-1-i) + cursor] is decided: what is left must not vary with the loop
+		loopVarying := false
+		for mono := range cur {
+			for _, part := range strings.Split(mono, monoSep) {
+				if ph, ok := fe.atoms[part].(*ssa.Phi); ok {
+					for _, sc := range st.Block().Succs {
+						_ = sc
+					}
+					if ph.Block() == st.Block() || (inCycle(ph.Block()) && reachableFrom(ph.Block(), nil, nil, nil)[st.Block()] && reachableFrom(st.Block(), nil, nil, nil)[ph.Block()]) {
+						loopVarying = true
+					}
+				}
+			}
+		}
+		if loopVarying {
+			r.info(rule, key, posOf(c, st), "not decided here: the index is not of the form (n-1-i) + cursor (C04.R9/R10 still decide the digits and the bit layout)")
+			return
+		}
+		bad := ""
+		undecided := false
+		// the cursor's own alternatives: a single phi atom merged in the same block as `before`
+		curAlts := func() []alt {
+			// cursor = (a value merged where the slice is merged) + what was added since
+			for mono, coef := range cur {
+				if coef != 1 || strings.Contains(mono, monoSep) {
+					continue
+				}
+				ph, ok := fe.atoms[mono].(*ssa.Phi)
+				if !ok || len(before) < 2 || ph.Block() != before[0].at {
+					continue
+				}
+				rest := polyAdd(cur, atomPoly(mono), -1)
+				var out []alt
+				for i, e := range ph.Edges {
+					out = append(out, alt{polyAdd(fe.eval(e), rest, 1), ph.Block().Preds[i], ph.Block()})
+				}
+				return out
+			}
+			return []alt{{p: cur}}
+		}()
+		// account for what the same straight-line code appended after the merge: both sides carry it
+		match := func(a, b poly) bool { return polyAdd(a, b, -1).String() == "0" }
+		switch {
+		case len(before) == 1 && len(curAlts) == 1:
+			if !match(before[0].p, curAlts[0].p) {
+				bad = fmt.Sprintf("the digits are written from index %s on, the block appended for them starts at %s", curAlts[0].p, before[0].p)
+			}
+		default:
+			// expand `before` over the cursor's merge: find for each cursor edge the before-alternative of the same edge
+			for _, ca := range curAlts {
+				found := false
+				for _, ba := range before {
+					if ba.at == ca.at && ba.edge == ca.edge {
+						found = true
+						// the cursor may have been advanced after the merge by the same constant the slice grew by
+						if !match(ba.p, ca.p) {
+							bad = fmt.Sprintf("on the path through %s the digits are written from index %s on, but the block appended for them starts at %s", c.rel(blockPos(ca.edge)), ca.p, ba.p)
+						}
+					}
+				}
+				if !found && len(before) > 1 {
+					undecided = true
+				}
+			}
+		}
+		if bad == "" && undecided {
+			r.info(rule, key, posOf(c, st), "not decided here: the write cursor and the slice are merged at different places")
+			return
+		}
+		r.check(bad == "", rule, key, posOf(c, st), "written into the block that was appended for them", bad+": the octets land on the wrong positions of the header (the length octets overwrite or fall short of their place), and what the decoder reads as length is something else")
+	})
+	if n == 0 {
+		r.proven(rule, fnKey(f)+"|digits blocks", c.rel(f.Pos()), "the header is assembled without indexed writes into pre-sized blocks (C04.R9/R10 cover the digits appended one by one)")
 	}
 }
